@@ -13,6 +13,7 @@ claimed = {
  "C08": ("live feed, sequential part: for every KV and xattr write entry point from an arbitrary state, with real dcpFeed queues registered through the writing handle, a second handle (copy()) and another collection: exactly one event per successful mutation on each feed of the collection, none elsewhere, none on failure/refusal, and the event's key/opcode/body+xattrs encoding/datatype/CAS/expiry/revision equal the post-state row", "plus two concurrent writers and one feed (preemption bound 2/3): events reach the queue in increasing CAS order"),
  "C09": ("backfill over an arbitrary invariant-satisfying table (2 symbolic rows quick, 3 thorough) and arbitrary start CAS: one event per document of the collection with CAS >= start, in CAS order, each field-equal to the live-event oracle for that row", "plus StartDCPFeed(backfill) racing a writer (preemption bound 2/3): the writer's version is delivered by backfill or live"),
  "C10": ("scoped to rosmar's own code: on the on-disk configuration (8 pooled connections) with up to 1 (quick) / 2 (thorough) symbolic Begin/Exec/Commit faults (BUSY or I/O error), every KV write entry point commits all of its effects (row, CAS, expiry, revision, both high-water marks) in exactly one commit before returning success, and commits nothing and changes nothing when it returns an error; BUSY retries included", "physical durability of a committed SQLite/WAL transaction across kill -9 is trusted (cgo/OS, not encodable); reopen after close/kill keeps data, UUID, expiry and re-arms the expiry timer"),
+ "C18": ("WriteSubDoc / SubdocInsert / GetSubDocRaw executed as real code over a JSON-object model of the document (property-name universe of 2, nesting depth 2, member values opaque canonical JSON): top-level and nested paths, set / remove / insert, any CAS argument: only the addressed property changes, every sibling and other top-level property is preserved, CAS honoured, insert refuses an existing property and a missing document, failure changes nothing", "writing the JSON value null left open; concurrent writers of different properties and the path parser on arbitrary strings not yet encoded"),
  "C19": ("SELECT id, body, xattrs FROM $_keyspace (and WHERE id = $k) over an arbitrary two-collection table, in-memory (pre-recorded iterator) and on-disk (streaming iterator): rows are exactly the live documents of the collection, each once, with current id/body/xattrs", "JSON-property filters use uninterpreted extraction; 2 document slots"),
  "C11": ("frame condition of every KV write entry point with the same key present in two collections: no row of another collection, no other table, and not the other collection's high-water mark change", "DropDataStore, views, queries pending"),
  "C13": ("bounded model checking from the empty registry through the real OpenBucket/Close/CloseAndDelete (URL handling evaluated natively, symbolic file system, sql.Open on a store registry): every sequence of 4 (quick) / 5 (thorough) operations over up to 4 handles, in-memory and on-disk: open-mode table, refusal of another URL, closed handles fail with the bucket-closed error, every other handle keeps working, data persists until CloseAndDelete, which removes data and registry entry", "one bucket name; OpenBucket racing Close explored with preemption bound 2/3; on-disk sequences are not replayed natively"),
@@ -23,7 +24,6 @@ claimed = {
 }
 notyet = {
  "C12": "view harnesses not registered yet",
- "C18": "subdoc harnesses not registered yet",
 }
 checks=[]
 for pid,(text,note) in sorted(claimed.items()):
